@@ -570,6 +570,17 @@ theorem C04_struct_default_not_map_unchanged (fuel : Nat) (id : String) (st : St
     subDefS (fuel + 1) (.obj id st false sub) (some d) = .ok (some d) := by
   simp [subDefS, hnm]
 
+/-- **A sub-object behind a pointer (or interface) field stays nil when it is not given** (as
+    repaired in 177d942; before, a non-pointer `T` on a field `*T` was synthesized from the defaults
+    below it, and a recursive struct type never stopped): an absent property without a default of
+    its own that is mapped to such a field adds nothing to the converted map, whatever defaults its
+    sub-object declares. -/
+theorem C03_struct_pointer_field_stays_nil (st : StructTy) (fuel : Nat) (k : String) (p : SProp)
+    (rest : List (String × SProp)) (m : List (String × V)) (hs : fieldSkips st k = true)
+    (hd : p.rules.defaultV = none) (hk : hasKey k m = false) :
+    applyDefaultsS st fuel ((k, p) :: rest) m = applyDefaultsS st fuel rest m := by
+  simp [applyDefaultsS, hk, hd, hs, Out.bind]
+
 /-- **No default, of whatever shape, makes the sub-object defaults panic** on a well-formed tree:
     well-formedness asks nothing of the values of defaults beyond that they decode. -/
 theorem C04_struct_subdefaults_no_panic (n : Nat) (t : STy) (e : Option V) (hwf : WFS t) :
@@ -690,6 +701,10 @@ example : subDefS 3 innerObj (some (toStrAny [("level", .float .f64 0x4014000000
     .ok (some (toStrAny [("level", .float .f64 0x4014000000000000)])) := by rfl
 example : subDefS 3 innerObj (some (toStrAny [("tag", .str "t")])) =
     .ok (some (toStrAny [("tag", .str "t"), ("level", .float .f64 0x401C000000000000)])) := by rfl
+/-- `inner` (by value) is filled in from its default and the sub-object's defaults; `innerp` (the same
+    sub-object on a `*Inner` field) stays absent -/
+example : applyDefaultsS stMid 3 midProps [] =
+    .ok [("inner", toStrAny [("tag", .str "t"), ("level", .float .f64 0x401C000000000000)])] := by rfl
 /-- a default that is not a map stays as it is -/
 example : subDefS 3 innerObj (some (.float .f64 0x4014000000000000)) = .ok (some (.float .f64 0x4014000000000000)) := by rfl
 
